@@ -650,6 +650,15 @@ func decodeStrict(line []byte, into any) error {
 	return nil
 }
 
+// DumpError is a CheckDump failure with a stable code naming the kind of mismatch.
+type DumpError struct{ Code, Msg string }
+
+func (e *DumpError) Error() string { return e.Msg }
+
+func dumpErr(code, format string, a ...any) error {
+	return &DumpError{Code: code, Msg: fmt.Sprintf(format, a...)}
+}
+
 // CheckDump verifies, from the files alone, that dir is a complete dump of spec under cfg: the directory holds exactly
 // manifest.json and the fragments it lists; every count, byte size and SHA-256 is what the file has; fragment names follow
 // the shard numbering; the records, in file order, are exactly the source entities in ID order, each once; graph counts,
@@ -658,44 +667,44 @@ func CheckDump(dir string, spec fakedb.Spec, cfg Config) (retriever.Manifest, er
 	var m retriever.Manifest
 	tree := ReadTree(dir)
 	if tree == nil {
-		return m, fmt.Errorf("dump directory missing")
+		return m, dumpErr("files", "dump directory missing")
 	}
 	mb, ok := tree["manifest.json"]
 	if !ok {
-		return m, fmt.Errorf("manifest.json missing")
+		return m, dumpErr("files", "manifest.json missing")
 	}
 	dec := json.NewDecoder(bytes.NewReader(mb.Data))
 	dec.DisallowUnknownFields()
 	if err := dec.Decode(&m); err != nil {
-		return m, fmt.Errorf("manifest.json does not parse: %v", err)
+		return m, dumpErr("manifest-syntax", "manifest.json does not parse: %v", err)
 	}
 	if string(m.Compression) != cfg.Codec {
-		return m, fmt.Errorf("manifest compression %q, dumped with %q", m.Compression, cfg.Codec)
+		return m, dumpErr("manifest-header", "manifest compression %q, dumped with %q", m.Compression, cfg.Codec)
 	}
 	if m.Driver != Driver {
-		return m, fmt.Errorf("manifest driver %q", m.Driver)
+		return m, dumpErr("manifest-header", "manifest driver %q", m.Driver)
 	}
 	if m.Source.GraphCount != len(spec.Graphs) || len(m.Graphs) != len(spec.Graphs) {
-		return m, fmt.Errorf("manifest lists %d graphs (graph_count %d), source has %d", len(m.Graphs), m.Source.GraphCount, len(spec.Graphs))
+		return m, dumpErr("graph-count", "manifest lists %d graphs (graph_count %d), source has %d", len(m.Graphs), m.Source.GraphCount, len(spec.Graphs))
 	}
 	if m.Metrics == nil || len(m.Metrics.Graphs) != len(spec.Graphs) || len(m.Schema.Graphs) != len(spec.Graphs) {
-		return m, fmt.Errorf("manifest metrics/schema entries do not cover all graphs")
+		return m, dumpErr("manifest-header", "manifest metrics/schema entries do not cover all graphs")
 	}
 	if m.Scrub.Mode != retriever.ScrubNone {
-		return m, fmt.Errorf("manifest scrub mode %q", m.Scrub.Mode)
+		return m, dumpErr("manifest-header", "manifest scrub mode %q", m.Scrub.Mode)
 	}
 	expectedFiles := map[string]bool{"manifest.json": true}
 	for gi, src := range spec.Graphs {
 		ge := m.Graphs[gi]
 		if ge.Name != src.Name {
-			return m, fmt.Errorf("manifest graph %d is %q, source graph is %q", gi, ge.Name, src.Name)
+			return m, dumpErr("graph-name", "manifest graph %d is %q, source graph is %q", gi, ge.Name, src.Name)
 		}
 		nodes := append([]*fakedb.Node(nil), src.Nodes...)
 		sort.Slice(nodes, func(i, j int) bool { return nodes[i].ID < nodes[j].ID })
 		edges := append([]*fakedb.Edge(nil), src.Edges...)
 		sort.Slice(edges, func(i, j int) bool { return edges[i].ID < edges[j].ID })
 		if ge.NodeCount != int64(len(nodes)) || ge.EdgeCount != int64(len(edges)) {
-			return m, fmt.Errorf("graph %q: manifest counts nodes=%d edges=%d, source has %d/%d", ge.Name, ge.NodeCount, ge.EdgeCount, len(nodes), len(edges))
+			return m, dumpErr("graph-counts", "graph %q: manifest counts nodes=%d edges=%d, source has %d/%d", ge.Name, ge.NodeCount, ge.EdgeCount, len(nodes), len(edges))
 		}
 		nodeKinds := map[string]bool{}
 		edgeKinds := map[string]bool{}
@@ -709,64 +718,64 @@ func CheckDump(dir string, spec fakedb.Spec, cfg Config) (retriever.Manifest, er
 				prefix = "edges"
 				seenEdgePhase = true
 			} else if fe.Phase != retriever.PhaseNodes {
-				return m, fmt.Errorf("file %q has phase %q", fe.Path, fe.Phase)
+				return m, dumpErr("phase", "file %q has phase %q", fe.Path, fe.Phase)
 			} else if seenEdgePhase {
-				return m, fmt.Errorf("node file %q listed after an edge file", fe.Path)
+				return m, dumpErr("phase", "node file %q listed after an edge file", fe.Path)
 			}
 			want := fmt.Sprintf("graphs/%s/%s-%06d.jsonl%s", GraphDir(src.Name), prefix, shard[fe.Phase], Extension(cfg.Codec))
 			if fe.Path != want {
-				return m, fmt.Errorf("fragment path %q, expected %q", fe.Path, want)
+				return m, dumpErr("fragment-path", "fragment path %q, expected %q", fe.Path, want)
 			}
 			if expectedFiles[fe.Path] {
-				return m, fmt.Errorf("fragment %q listed twice", fe.Path)
+				return m, dumpErr("fragment-path", "fragment %q listed twice", fe.Path)
 			}
 			expectedFiles[fe.Path] = true
 			ent, ok := tree[fe.Path]
 			if !ok || ent.Dir || ent.Link != "" {
-				return m, fmt.Errorf("fragment %q is not a regular file in the dump", fe.Path)
+				return m, dumpErr("files", "fragment %q is not a regular file in the dump", fe.Path)
 			}
 			if fe.CompressedBytes != int64(len(ent.Data)) {
-				return m, fmt.Errorf("fragment %q: manifest compressed_bytes %d, file has %d", fe.Path, fe.CompressedBytes, len(ent.Data))
+				return m, dumpErr("compressed-bytes", "fragment %q: manifest compressed_bytes %d, file has %d", fe.Path, fe.CompressedBytes, len(ent.Data))
 			}
 			if fe.SHA256 != SHA(ent.Data) {
-				return m, fmt.Errorf("fragment %q: manifest sha256 does not match the file", fe.Path)
+				return m, dumpErr("sha256", "fragment %q: manifest sha256 does not match the file", fe.Path)
 			}
 			plain, err := Decompress(ent.Data, cfg.Codec)
 			if err != nil {
-				return m, fmt.Errorf("fragment %q does not decompress: %v", fe.Path, err)
+				return m, dumpErr("fragment-encoding", "fragment %q does not decompress: %v", fe.Path, err)
 			}
 			if fe.UncompressedBytes != int64(len(plain)) {
-				return m, fmt.Errorf("fragment %q: manifest uncompressed_bytes %d, content has %d", fe.Path, fe.UncompressedBytes, len(plain))
+				return m, dumpErr("uncompressed-bytes", "fragment %q: manifest uncompressed_bytes %d, content has %d", fe.Path, fe.UncompressedBytes, len(plain))
 			}
 			lines, err := Lines(plain)
 			if err != nil {
-				return m, fmt.Errorf("fragment %q: %v", fe.Path, err)
+				return m, dumpErr("fragment-encoding", "fragment %q: %v", fe.Path, err)
 			}
 			if fe.Count != len(lines) {
-				return m, fmt.Errorf("fragment %q: manifest count %d, file has %d records", fe.Path, fe.Count, len(lines))
+				return m, dumpErr("record-count", "fragment %q: manifest count %d, file has %d records", fe.Path, fe.Count, len(lines))
 			}
 			if len(lines) == 0 {
-				return m, fmt.Errorf("fragment %q is empty", fe.Path)
+				return m, dumpErr("record-count", "fragment %q is empty", fe.Path)
 			}
 			for _, line := range lines {
 				if fe.Phase == retriever.PhaseNodes {
 					var r recNode
 					if err := decodeStrict(line, &r); err != nil {
-						return m, fmt.Errorf("fragment %q: record does not parse: %v", fe.Path, err)
+						return m, dumpErr("manifest-syntax", "fragment %q: record does not parse: %v", fe.Path, err)
 					}
 					if ni >= len(nodes) {
-						return m, fmt.Errorf("graph %q: more node records than source nodes", src.Name)
+						return m, dumpErr("records", "graph %q: more node records than source nodes", src.Name)
 					}
 					s := nodes[ni]
 					ni++
 					if r.ID != strconv.FormatUint(s.ID, 10) {
-						return m, fmt.Errorf("graph %q: node record %d has id %s, source node in ID order is %d", src.Name, ni, r.ID, s.ID)
+						return m, dumpErr("records", "graph %q: node record %d has id %s, source node in ID order is %d", src.Name, ni, r.ID, s.ID)
 					}
 					if KindSet(r.Kinds) != KindSet(s.Kinds) {
-						return m, fmt.Errorf("graph %q node %d: kinds %v, source %v", src.Name, s.ID, r.Kinds, s.Kinds)
+						return m, dumpErr("records", "graph %q node %d: kinds %v, source %v", src.Name, s.ID, r.Kinds, s.Kinds)
 					}
 					if CanonProps(r.Props) != CanonProps(s.Props) {
-						return m, fmt.Errorf("graph %q node %d: properties %s, source %s", src.Name, s.ID, CanonProps(r.Props), CanonProps(s.Props))
+						return m, dumpErr("records", "graph %q node %d: properties %s, source %s", src.Name, s.ID, CanonProps(r.Props), CanonProps(s.Props))
 					}
 					for _, k := range s.Kinds {
 						nodeKinds[k] = true
@@ -774,40 +783,40 @@ func CheckDump(dir string, spec fakedb.Spec, cfg Config) (retriever.Manifest, er
 				} else {
 					var r recEdge
 					if err := decodeStrict(line, &r); err != nil {
-						return m, fmt.Errorf("fragment %q: record does not parse: %v", fe.Path, err)
+						return m, dumpErr("manifest-syntax", "fragment %q: record does not parse: %v", fe.Path, err)
 					}
 					if ei >= len(edges) {
-						return m, fmt.Errorf("graph %q: more relationship records than source relationships", src.Name)
+						return m, dumpErr("records", "graph %q: more relationship records than source relationships", src.Name)
 					}
 					s := edges[ei]
 					ei++
 					if r.Start != strconv.FormatUint(s.Start, 10) || r.End != strconv.FormatUint(s.End, 10) || r.Kind != s.Kind {
-						return m, fmt.Errorf("graph %q: relationship record %d is (%s)-[%s]->(%s), source relationship %d is (%d)-[%s]->(%d)", src.Name, ei, r.Start, r.Kind, r.End, s.ID, s.Start, s.Kind, s.End)
+						return m, dumpErr("records", "graph %q: relationship record %d is (%s)-[%s]->(%s), source relationship %d is (%d)-[%s]->(%d)", src.Name, ei, r.Start, r.Kind, r.End, s.ID, s.Start, s.Kind, s.End)
 					}
 					if CanonProps(r.Props) != CanonProps(s.Props) {
-						return m, fmt.Errorf("graph %q relationship %d: properties %s, source %s", src.Name, s.ID, CanonProps(r.Props), CanonProps(s.Props))
+						return m, dumpErr("records", "graph %q relationship %d: properties %s, source %s", src.Name, s.ID, CanonProps(r.Props), CanonProps(s.Props))
 					}
 					edgeKinds[s.Kind] = true
 				}
 			}
 		}
 		if ni != len(nodes) || ei != len(edges) {
-			return m, fmt.Errorf("graph %q: fragments hold %d nodes / %d relationships, source has %d / %d", src.Name, ni, ei, len(nodes), len(edges))
+			return m, dumpErr("records", "graph %q: fragments hold %d nodes / %d relationships, source has %d / %d", src.Name, ni, ei, len(nodes), len(edges))
 		}
 		se := m.Schema.Graphs[gi]
 		if se.Name != src.Name || KindSet(se.NodeKinds) != KindSet(keys(nodeKinds)) || KindSet(se.EdgeKinds) != KindSet(keys(edgeKinds)) {
-			return m, fmt.Errorf("graph %q: schema entry %+v does not list exactly the kinds in use", src.Name, se)
+			return m, dumpErr("schema-kinds", "graph %q: schema entry %+v does not list exactly the kinds in use", src.Name, se)
 		}
 		want, _ := Metrics(src)
 		if !MetricsEqual(m.Metrics.Graphs[gi], want) {
 			gb, _ := json.Marshal(m.Metrics.Graphs[gi])
 			wb, _ := json.Marshal(want)
-			return m, fmt.Errorf("graph %q: manifest metrics %s, recomputed %s", src.Name, gb, wb)
+			return m, dumpErr("metrics", "graph %q: manifest metrics %s, recomputed %s", src.Name, gb, wb)
 		}
 	}
 	for _, p := range tree.Files() {
 		if !expectedFiles[p] {
-			return m, fmt.Errorf("dump directory holds %q which the manifest does not list", p)
+			return m, dumpErr("unlisted-file", "dump directory holds %q which the manifest does not list", p)
 		}
 	}
 	return m, nil
